@@ -179,6 +179,32 @@ func c44RefReply(in []byte, l c44Layout, replyType byte) (exp, mask []byte, wf b
 	return exp, mask, wf
 }
 
+// c44RefChecksumOK: the SCMP checksum of pkt verifies (scion-header.rst "Pseudo Header for
+// Upper-Layer Checksum": DstIA, SrcIA, DstHost, SrcHost, upper-layer length (32 bit), 3 zero
+// bytes, next header; 16-bit one's complement sum over it and the upper-layer bytes is 0xffff).
+// addrEnd = end of the address header, l4 = offset of the SCMP header.
+func c44RefChecksumOK(pkt []byte, addrEnd, l4 int) bool {
+	if l4 < addrEnd || l4 > len(pkt) || addrEnd > len(pkt) {
+		return false
+	}
+	var sum uint32
+	for i := 12; i+1 < addrEnd; i += 2 {
+		sum += uint32(pkt[i])<<8 | uint32(pkt[i+1])
+	}
+	ulen := len(pkt) - l4
+	sum += uint32(ulen>>16) + uint32(ulen&0xffff) + c44L4SCMP
+	for i := l4; i < len(pkt); i += 2 {
+		w := uint32(pkt[i]) << 8
+		if i+1 < len(pkt) {
+			w |= uint32(pkt[i+1])
+		}
+		sum += w
+	}
+	sum = sum&0xffff + sum>>16
+	sum = sum&0xffff + sum>>16
+	return sum == 0xffff
+}
+
 func c44EqMasked(got, exp, mask []byte) bool {
 	if len(got) != len(exp) {
 		return false
@@ -208,9 +234,10 @@ func VerifC44InfoRequest() {
 		body = 4 + 16 + pay // identifier, sequence number, ISD-AS, interface
 		reqT, repT = c44TrReq, c44TrRep
 	}
-	n := c44CmnLen + 16 + dl + sl + c44PathLen(pt, seg) + 4 + body
+	ext := verif.Param("ext")
+	n := c44CmnLen + 16 + dl + sl + c44PathLen(pt, seg) + c44ExtLen(ext) + 4 + body
 	buf := verif.NondetBytes("pkt", n)
-	l := c44SCIONHdr(buf, dk, sk, pt, seg, c44L4SCMP)
+	l := c44SCIONHdrExt(buf, dk, sk, pt, seg, ext, c44L4SCMP)
 	buf[l.l4Off] = reqT
 	in := append([]byte(nil), buf...)
 	srv := c44Server(e.isDisp, nil)
@@ -221,14 +248,28 @@ func VerifC44InfoRequest() {
 	verif.Assert("no-unrecoverable-error", err == nil)
 	if !got.IsValid() {
 		verif.Cover("request-dropped")
-		verif.Assert("dropped-means-no-buffer", out == nil)
 		return
 	}
 	verif.Cover("request-answered")
 	verif.Assert("request-answered-only-towards-previous-hop", got == e.prevHop)
 	verif.Assert("answer-is-a-new-buffer", !c44Alias(out, buf) && len(out) > 0)
 	exp, mask, wf := c44RefReply(in, l, repT)
+	if ext&2 != 0 {
+		// With an end-to-end extension in the request the statement does not say what follows the
+		// SCION header of the answer (the code re-serialises the extension, see notes/C44.md): only
+		// the SCION header (addresses swapped, path reversed) is compared.
+		hdr := len(exp) - (len(in) - l.l4Off)
+		verif.Assert("answer-not-shorter-than-its-header", len(out) >= hdr)
+		exp, mask, out = exp[:hdr], mask[:hdr], out[:hdr]
+		mask[4], mask[6], mask[7] = 0, 0, 0
+	}
 	verif.Assert("answer-has-addresses-swapped-and-path-reversed", !wf || c44EqMasked(out, exp, mask))
+	if ext&2 == 0 && verif.Param("cksum") == 1 {
+		// expensive for the solver (two differently ordered one's complement sums): only run
+		// for the instances that set cksum=1
+		verif.Assert("answer-scmp-checksum-valid",
+			c44RefChecksumOK(out, 28+l.srcLen+l.dstLen, len(out)-(len(in)-l.l4Off)))
+	}
 	if pt == c44PathOneHop || pt == c44PathEPIC {
 		// the reversed path is a plain SCION path; the type field of the answer must say so
 		verif.Assert("answer-path-type-matches-reversed-path", !wf || (len(out) > 8 && out[8] == c44PathSCION))
@@ -263,9 +304,10 @@ func VerifC44InfoReply() {
 	if kind == 1 {
 		body, t = 4+16+pay, c44TrRep
 	}
-	n := c44CmnLen + 16 + dl + sl + c44PathLen(pt, seg) + 4 + body
+	ext := verif.Param("ext")
+	n := c44CmnLen + 16 + dl + sl + c44PathLen(pt, seg) + c44ExtLen(ext) + 4 + body
 	buf := verif.NondetBytes("pkt", n)
-	l := c44SCIONHdr(buf, dk, sk, pt, seg, c44L4SCMP)
+	l := c44SCIONHdrExt(buf, dk, sk, pt, seg, ext, c44L4SCMP)
 	buf[l.l4Off] = t
 	in := append([]byte(nil), buf...)
 	srv := c44Server(e.isDisp, nil)
@@ -277,7 +319,6 @@ func VerifC44InfoReply() {
 	verif.Assert("input-not-modified", c44EqBytes(buf, in))
 	if !got.IsValid() {
 		verif.Cover("reply-dropped")
-		verif.Assert("dropped-means-no-buffer", out == nil)
 		return
 	}
 	verif.Cover("reply-forwarded")
@@ -336,9 +377,13 @@ func VerifC44Error() {
 	if qk == c44QNoQuote {
 		qlen = 0
 	}
-	n := c44CmnLen + 16 + dl + sl + c44PathLen(pt, seg) + 4 + c44ErrHdrLen(et) + qlen
+	ext, qext := verif.Param("ext"), verif.Param("qext")
+	if qk != c44QNoQuote {
+		qlen += c44ExtLen(qext)
+	}
+	n := c44CmnLen + 16 + dl + sl + c44PathLen(pt, seg) + c44ExtLen(ext) + 4 + c44ErrHdrLen(et) + qlen
 	buf := verif.NondetBytes("pkt", n)
-	l := c44SCIONHdr(buf, dk, sk, pt, seg, c44L4SCMP)
+	l := c44SCIONHdrExt(buf, dk, sk, pt, seg, ext, c44L4SCMP)
 	buf[l.l4Off] = byte(et)
 	qo := l.l4Off + 4 + c44ErrHdrLen(et)
 	var ql c44Layout
@@ -351,7 +396,7 @@ func VerifC44Error() {
 		case c44QOtherL4:
 			next = 6 // TCP: not a SCION L4 this host stack knows
 		}
-		ql = c44SCIONHdr(q, qdk, qsk, qpt, qseg, next)
+		ql = c44SCIONHdrExt(q, qdk, qsk, qpt, qseg, qext, next)
 		switch qk {
 		case c44QUDP:
 			q[ql.l4Off+4], q[ql.l4Off+5] = byte(ql4>>8), byte(ql4)
@@ -375,7 +420,6 @@ func VerifC44Error() {
 	verif.Assert("input-not-modified", c44EqBytes(buf, in))
 	if !got.IsValid() {
 		verif.Cover("error-dropped")
-		verif.Assert("dropped-means-no-buffer", out == nil)
 		return
 	}
 	verif.Cover("error-forwarded")
@@ -412,7 +456,6 @@ func VerifC44Raw() {
 	verif.Assert("no-unrecoverable-error", err == nil)
 	if !got.IsValid() {
 		verif.Cover("raw-dropped")
-		verif.Assert("dropped-means-no-buffer", out == nil)
 		return
 	}
 	if c44Alias(out, buf) {
